@@ -52,6 +52,64 @@ def _worker(task):
         signal.alarm(0)
 
 
+def _child(task, conn):
+    try:
+        conn.send(_worker(task))
+    except BaseException as e:  # noqa
+        try:
+            conn.send(dict(name="?", params={}, status="harness-error", asserts=[], violations=[], inconclusive=[f"runner: result not transferable: {e!r}"], stats={}, wall=0))
+        except BaseException:  # noqa
+            pass
+    finally:
+        conn.close()
+
+
+def _run_parallel(tasks, jobs, tier, obs):
+    """One forked process per obligation, at most `jobs` at a time; a process that does not deliver within the obligation's
+    wall-clock budget (+45 s grace: a solver call that ignores its timeout cannot be interrupted from Python) is killed and
+    the obligation reported inconclusive."""
+    from multiprocessing.connection import wait
+    from vlib.harness import TIERS
+
+    ctx = mp.get_context("fork")
+    limit = TIERS[tier]["ob_wall"] + 45
+    pending = list(tasks)[::-1]
+    running = {}  # conn -> (proc, task, t0)
+    results = []
+    while pending or running:
+        while pending and len(running) < jobs:
+            task = pending.pop()
+            rd, wr = ctx.Pipe(duplex=False)
+            p = ctx.Process(target=_child, args=(task, wr), daemon=True)
+            p.start()
+            wr.close()
+            running[rd] = (p, task, time.time())
+        ready = wait(list(running), timeout=1.0)
+        for rd in ready:
+            p, task, t0 = running.pop(rd)
+            try:
+                r = rd.recv()
+            except (EOFError, OSError):
+                name = obs[task[1]][0]
+                r = dict(name=name, params=obs[task[1]][2], status="harness-error", asserts=[], violations=[], inconclusive=[f"runner: worker died (exit code {p.exitcode})"], stats={}, wall=time.time() - t0)
+            rd.close()
+            p.join(5)
+            if p.is_alive():
+                p.kill()
+            results.append(r)
+        now = time.time()
+        for rd in list(running):
+            p, task, t0 = running[rd]
+            if now - t0 > limit:
+                p.kill()
+                p.join(5)
+                rd.close()
+                del running[rd]
+                name = obs[task[1]][0]
+                results.append(dict(name=name, params=obs[task[1]][2], status="inconclusive", asserts=[], violations=[], inconclusive=["hard wall-clock limit (a solver call did not return within its timeout)"], stats={}, wall=now - t0))
+    return results
+
+
 def load_known():
     p = os.path.join(ROOT, "known_findings.json")
     if not os.path.exists(p):
@@ -69,10 +127,7 @@ def run_property(prop: str, tier: str, seed: int, jobs: int = 16, only: str = No
         for t in tasks:
             results.append(_worker(t))
     else:
-        ctx = mp.get_context("fork")
-        with ctx.Pool(min(jobs, len(tasks)), maxtasksperchild=4) as pool:
-            for r in pool.imap_unordered(_worker, tasks, chunksize=1):
-                results.append(r)
+        results = _run_parallel(tasks, jobs, tier, obs)
     results.sort(key=lambda r: r["name"])
     known = load_known()
     kf = [k for k in known.get("findings", []) if k["property"] == prop]
